@@ -24,7 +24,8 @@ import graph from Python ASTs and checks ArchUnit-style architectural rules). Yo
 realistic code changes that BREAK one stated property of the library while the library's own test suite still passes.
 
 Your scratch git worktree of the library is {wt} . Work ONLY inside {top} (the worktree and {top}/out).
-Do not read or write /verif or /repo (they are out of bounds for you), and do not commit anything.
+Do not read or write /verif, /repo, /root/lw, /tmp/q or other directories under /tmp/seed and /tmp/seedprompts (they are out of bounds for you: your work must be
+independent of whatever checking machinery exists on this machine), and do not commit anything.
 
 THE PROPERTY ({p}: {props[p].get('title','')})
 
